@@ -13,7 +13,7 @@ func VerifC17BitIndex() {
 	a2 := vNondetFloat64("a2")
 	lim := 1000000.0
 	vAssume(-lim <= mn && mn < mx && mx <= lim)
-	vAssume(mx-mn >= 1e-9) // height ranges narrower than a nanometre are outside the claim
+	vAssume(mx-mn >= 1e-3) // height ranges narrower than a millimetre are outside the claim (at 10^6 m a few ulp wide: the borders collide)
 	vAssume(-lim <= a1 && a1 <= a2 && a2 <= lim)
 	i1 := calcBitIndex(a1, zoom, mx, mn)
 	i2 := calcBitIndex(a2, zoom, mx, mn)
@@ -39,7 +39,7 @@ func VerifC17Run() {
 	mn := vNondetFloat64("min")
 	vAssume(-(int64(1)<<uint(v)) <= f && f < int64(1)<<uint(v))
 	vAssume(-1000000.0 <= mn && mn < mx && mx <= 1000000.0)
-	vAssume(mx-mn >= 1e-9)
+	vAssume(mx-mn >= 1e-3)
 	got := convertVerticallIDToBit(v, f, zoom, mx, mn)
 	res := alt25 / float64(int64(1)<<uint(v))
 	lo := calcBitIndex(float64(f)*res, zoom, mx, mn)
